@@ -11,17 +11,17 @@ CONFIG = dict(
                "stays subscribed; no invocation after unsubscribe or clear (ids are never re-used); global registration = "
                "Global flag, kept by every live global subscription and dropped with the last listener / clear; a global "
                "publication appends exactly one event per subscribed centre unless its queue holds 999; no lock is held across "
-               "a listener call. The model is tied to the Go code on every run by replaying ~1200 generated cases (~25k op lines) "
+               "a listener call. The model is tied to the Go code on every run by replaying ~3000 generated cases (~85k op lines) "
                "through both and by evaluating the property monitor on the implementation's own traces.",
     level_note="Trusted: Lean kernel, harness/driver line protocol, Go mutex/channel/map semantics (RWMutex write lock waits for the "
                "caller's own read lock; map range under mutation yields deleted-before-reached entries never, inserted ones maybe). "
                "The theorems are about the model; the differential run ties it to the code on sampled histories only. The owner "
-               "goroutine and concurrent publishers are exercised by two smoke ops (real StandardRunService; real goroutines), not proved.",
+               "goroutine, concurrent publishers and concurrent first subscribers (D17) are exercised by three ops with real goroutines, not proved.",
     lean_targets=["Cell2v.Props.C17", "modeld_c17"],
     driver="modeld_c17",
     driver_root="Cell2v.Driver.C17",
     audit="Audit/C17.lean",
-    required_theorems=["publish_calls_current_once", "publish_at_most_once", "args_bound_then_published", "other_names_untouched",
+    required_theorems=["publish_calls_current_once", "publish_at_most_once", "publish_reaches_every_current_listener", "queued_events_were_published", "args_bound_then_published", "other_names_untouched",
                        "never_after_unsubscribe", "never_after_clear", "global_once_per_subscribed_centre",
                        "global_registration_tracks_listeners", "reentrant_ops_do_not_block",
                        "d7_reentrant_unsubscribe_blocked", "d14_light_invoked_after_clear"],
@@ -29,10 +29,10 @@ CONFIG = dict(
     mode="accept",
     reset_prefix="reset",
     runs={
-        "quick": [dict(name="main", env={"VERIF_N": "1200"}, timeout=240)],
-        "thorough": [dict(name="main", env={"VERIF_N": "20000"}, timeout=800),
-                     dict(name="seed2", env={"VERIF_N": "12000"}, seed_offset=1000, timeout=800),
-                     dict(name="seed3", env={"VERIF_N": "12000"}, seed_offset=2000, timeout=800)],
+        "quick": [dict(name="main", env={"VERIF_N": "3000"}, timeout=240)],
+        "thorough": [dict(name="main", env={"VERIF_N": "50000"}, timeout=800),
+                     dict(name="seed2", env={"VERIF_N": "30000"}, seed_offset=1000, timeout=800),
+                     dict(name="seed3", env={"VERIF_N": "30000"}, seed_offset=2000, timeout=800)],
     },
     trivial=r"^(ok|bad|bad-op|dup|-|aborted|q=0|\[ \]|s\+|s0|u|c|x|q|g:)?$",
     rule="cases generated from one PRNG (VERIF_SEED): 1-3 centres (local, local+useChan, light), 4-10 listener templates with random "
@@ -40,7 +40,7 @@ CONFIG = dict(
          "nested publish up to depth 3, global publish, clear), then 4-13 top-level call lines, owner drains, queue probes and a final "
          "publish of every name on every centre; families quiet / re-entrant / global / clear-heavy; 999-slot queue cases (global "
          "publication dropped, blocking local publish hangs under the watchdog); malformed stream (unknown centres, templates, tags, "
-         "unparsable scripts); real StandardRunService and concurrent-publisher smoke cases; corpus = D7 and D14 witnesses. A line "
+         "unparsable scripts); real StandardRunService, concurrent-publisher and concurrent-first-subscriber cases (real goroutines); corpus = D7, D14 and D17 witnesses. A line "
          "is non-trivial when its observation contains at least one listener invocation or a non-empty global fan-out",
     trusted_base=[
         "Lean 4.33.0 kernel; axioms of every property theorem audited on each run (allowed: propext, Classical.choice, Quot.sound)",
